@@ -512,6 +512,19 @@ func c02Values(thorough bool) [][]byte {
 	for _, n := range []int{0, 1, 74, 75, 76, 77, 78, 79, 200, 1000} {
 		vs = append(vs, []byte(repeatTo("x", n)), []byte(repeatTo("word ", n)), []byte(repeatTo("ü", n)))
 	}
+	// runs of blanks: alone, and between words that fill a line (folding decisions around empty "words")
+	for _, k := range []int{2, 3, 10, 60, 70, 71, 72, 73, 74, 75, 76, 77, 78, 79, 80, 150, 300} {
+		sp := strings.Repeat(" ", k)
+		vs = append(vs, []byte(sp), []byte("a"+sp+"b"), []byte(sp+"b"), []byte("a"+sp))
+	}
+	for _, a := range []int{1, 30, 60, 68, 69, 70, 71, 72, 73, 74, 75, 76, 80} {
+		for _, b := range []int{1, 30, 70, 71, 72, 73, 74, 75, 76, 80} {
+			for _, k := range []int{2, 3, 5} {
+				vs = append(vs, []byte(repeatTo("a", a)+strings.Repeat(" ", k)+repeatTo("b", b)))
+			}
+			vs = append(vs, []byte(repeatTo("a", a)+" \t "+repeatTo("b", b)), []byte(repeatTo("a", a)+"  "+repeatTo("b", b)+"  "+repeatTo("c", a)))
+		}
+	}
 	vs = append(vs, []byte("x\r\nX-Injected: yes"), []byte("x\r\n\r\ninjected body"), []byte("=?utf-8?q?already=20encoded?="), []byte("a\r\n b"), []byte("x\nBcc: evil@example.com"))
 	return vs
 }
